@@ -21,6 +21,27 @@ CLAIMED = {
  "C06": ("§7 C06", "Lean 4 shape theorem for EVERY reply script (no well-formedness assumption): rounds then exactly one closing; at most one error, no write after it, an uninterpretable packet is never acknowledged; Ack parser accepts only 80 00 + fault-injection correspondence",
          "Proved for every enum, final set, command and arbitrary script: the trace is `write cmd` then either a failed acknowledgement phase (one error, nothing written) or `read ack`, complete rounds, and one closing among {end after a yield, [read] error end, hang}; hence countErr <= 1 and writesAfterFirstErr = 0 (`one_error_then_silence`); `ack_only_8000`. Correspondence: all 17 sequences x valid prefixes x {NACK, foreign control field, undecodable body, truncated packet, EOF} instead of the ack and at every later position.",
          "Trusted: Lean kernel, translator, hand model validated by differential execution. `hang` (silence on an open connection) is bounded by the caller's time-out: C10."),
+ "C07": ("§7 C07", "Lean 4 theorems on the client model for EVERY world (terminal script, faults, time): refused calls touch nothing; begin adds at most exactly token->receipt and only on success; commit/cancel close exactly their token; map invariant (one entry per token) and bound (<= max) preserved + differential correspondence of call histories against an abstract token-map specification",
+         "Proved: `begin_refused_no_traffic`, `commit/cancel_unknown_no_traffic` (world unchanged: no traffic, no time), `begin_post`, `commit_post`, `cancel_post`, `begin_inv/commit_inv/cancel_inv`, `begin_bound`, `commit_uses_own_receipt` — independent of what the terminal does, because they concern the guards and the fold of the exchange outcome. Correspondence: the real Feig client (hook zvt_verif, tokio paused clock) vs the Lean model vs the python abstract specification: all histories up to depth 2 x max 0..3, 5000 of depth 3 (thorough: depth 4), random walks to depth 40, results and every byte sent compared.",
+         "Trusted: Lean kernel, hand model of feig.rs/stream.rs validated by differential execution on this run, the simulated terminal (same ~80 lines in harness and model), python abstract spec + reference encoder."),
+ "C08": ("§7 C08", "Lean 4 theorems: released amount = saturating pre - final (never negative/wrapped/greater), request field lists of commit and reservation (definitional + kernel-evaluated layouts), summary = projection of the last status information, byte-exact kernel-evaluated example + byte-for-byte differential check of requests against the reference encoder",
+         "Proved for all inputs: `reversal_amount` (= satSub64, <= pre, + final = pre when final <= pre, 0 otherwise), `reversal_amount_fits`, `commit_request_fields`, `reservation_request_fields`, `request_layouts` (decide), `summary_fields`; a concrete commit is evaluated in the kernel down to the bytes on the wire. Correspondence: 14 pre-authorisation amounts x finals {0,1,equal,+-1,2^32,2^62,2^63-1,2^63,2^63+1,u64::MAX-1294,u64::MAX-1,u64::MAX,random} x currencies x CP437 tokens x receipts: requests on the wire equal the packets assembled from the specification table, summary equals the reported fields.",
+         "Trusted: as C07. The statement 'bytes on the wire carry these fields' for ALL values relies on C01/C03 (encoder = specification layout), which are differential + partially proved."),
+ "C09": ("§7 C09", "Lean 4 theorems about the retry/connection model for every script: a failed attempt (error item or time-out) leaves no live connection, a good one keeps the same connection, a live connection is reused without handshake, no connection => handshake, no switch inside an exchange; kernel-evaluated wrong-serial run + exhaustive single-fault injection at every item of every exchange",
+         "Proved: `failed_attempt_drops_connection`, `good_attempt_keeps_connection`, `live_connection_is_reused`, `no_connection_means_handshake`, `same_connection_within_exchange`; a wrong-serial handshake is evaluated in the kernel (registered, identity asked, dropped, no command). Correspondence: 5 call histories x {close, NACK, garbage, silence} at EVERY item the terminal sends (handshake included), wrong/case-different serials, refused/stalled connects, sampled multi-fault runs; oracle on the terminal's per-connection logs (fault-free prefix only on the failed connection, every other connection starts with registration + identity check, exactly one reconnect).",
+         "Trusted: as C07; tokio DuplexStream semantics for close/EOF."),
+ "C10": ("§7 C10", "Lean 4 theorems bounding virtual time: stream.next() takes no time, handshake <= TIMEOUT, attempt <= one packet time-out, every exchange with retries <= ATTEMPTS x (THROTTLE + TIMEOUT + timeout) for every terminal behaviour; read_card timeout = t+2 without overflow and >= 2 for all 256 configuration values; + stall injection at every item on tokio's paused clock with exact time-stamp comparison",
+         "Proved for every script/fault table: `exchange_bounded` (induction over the retry loop), `connect_bounded`, `attempt_bounded`, `readCard_bounded` (<= 6380 s for every read_card_timeout 0..255), `begin_bounded`, `timeout_no_overflow`. The model has no hang outcome above the sequence level. Correspondence: a stall at every item of every exchange x read_card_timeout {0,1,15,253,254,255} (thorough: all 256), mute terminals over 70 connections; every call must return under a one-virtual-day watchdog and results, traffic and virtual time stamps must equal the model's exactly.",
+         "Partial w.r.t. the executor: tokio's timer wheel / wakers are exercised by the harness, not modelled. Trusted: as C07; tokio paused clock and Throttle semantics (first item at once, next not before previous + 2 s)."),
+ "C18": ("§7 C18", "Lean 4 theorems on the classification function: canonical UID is case-insensitive, idempotent, <= 14 chars, = last 14 minus one leading 000000; classification is bank or canonUid(uid); abort 6C => no card, others => error naming the code; counter-example to the full-strength statement (finding D9) proved by kernel evaluation + differential check over UIDs/application lists/all 256 abort codes",
+         "Proved: `canon_case_insensitive`, `canon_idempotent`, `canon_length`, `canon_short`, `canon_long`, `classify_sound`, `abort_6c_is_no_card`, `abort_other`. `C18_full_counterexample` shows (by decide) that the property's literal reading fails for application lists whose first entry has no application id: listed as KNOWN FINDING D9 (the check prints KNOWN-FINDING and fails only for other violations). Correspondence: UID absent/0..20 bytes with zero runs, lists with/without ids, 0..3 intermediate statuses, all 256 abort codes, against a python specification of the literal property.",
+         "Trusted: as C07."),
+ "C19": ("§7 C19", "Lean 4 theorems: while a token is open the post-exchange step is the identity on the world (no packet at all); when idle it is end_of_day; order of clean-up (pending query, then reversal of each reported receipt stopping at the first failure, then end-of-day); A0 tolerated + differential check of the exact packet sequence against the abstract specification",
+         "Proved for every world: `no_cleanup_while_open`, `cleanup_when_idle`, `commit_then_cleanup`/`commit_abort_no_cleanup`, `cancel_then_cleanup`/`cancel_failed_no_cleanup`, `endOfDay_order`, `cancelAll_single`, `eod_outcome`. Correspondence: histories over 1-2 tokens x finishing outcome x dangling receipt {absent, FFFF, 17, 9999} x reversal outcome x end-of-day outcome (completion, 50+ abort codes; thorough all 256): exact request sequence and results.",
+         "Trusted: as C07."),
+ "C20": ("§7 C20", "Lean 4 theorems for ALL result codes on the decision every operation takes on a decoded abort (never success; identifies the code; exactly the three documented translations); kernel-decided equality of the translated code/message table with the specification's + 256 codes x every operation/sub-exchange x abort position differential check",
+         "Proved: `errorTable_eq_spec` (decide, 79 rows), `readCard_abort`, `begin_abort`, `commit_abort`, `reversal_abort`, `init_abort`, `setTid_abort`, `eod_abort`, `documented_codes`, `abort_never_success`. That an abort packet reaches the decision for every position in the reply script is carried by the sequence model (C05) and the correspondence: 256 codes x {read card, begin, commit, cancel, pending reversal, end-of-day while going idle, configure: system info, set terminal id, initialisation, pending reversal, end-of-day} x positions; plus an identification check on the implementation's results alone.",
+         "Trusted: as C07."),
  "C14": ("§7 C14", "Lean 4 theorems: suffix-independence of every delimiting length style, of the generic tag/length/data triple, of every command decoder and nested container, for arbitrary (not only canonical) inputs + differential correspondence with suffixes",
          "Proved for all inputs, all schemas: if a packet (APDU) or a field under fixed/LLVAR/LLLVAR/BER-TLV length decodes, then with any bytes appended it decodes to the same value and the remainder is the old remainder followed by exactly those bytes (`cmd_suffix`, `field_suffix`, `deserTagged_append`, `lenDe_append`). Correspondence: canonical packets of all command types x suffixes (all 256 single bytes, valid packets, random) and junk spliced into the body behind the last container.",
          "Trusted: Lean kernel, hand model of lib.rs/length.rs/derive validated by differential execution, harness."),
